@@ -89,9 +89,13 @@ def run(ck):
           f"{len(schema_nodes)} (each must exist)", fi, fi.node)
     if allowed_nodes and check_nodes and schema_nodes:
         a, c, s = allowed_nodes[0], check_nodes[0], schema_nodes[0]
-        ok = cfg.dominates(a, c) and cfg.dominates(c, s)
+        def before(x, y):
+            # x can be followed by y, y is never followed by x
+            return y.id in cfg.reachable_from(x) and x.id not in cfg.reachable_from(y)
+        ok = before(a, c) and before(c, s) and before(a, s)
         ck.ob(R1, f"{fi.fid} :: stage order", ok,
-              "allowed-test dominates check-call dominates schema-call" if ok else
+              "the allowed-test precedes the check-call which precedes the schema-call on every "
+              "path" if ok else
               f"stage order is not allowed -> check -> schema (lines {a.lineno}, {c.lineno}, "
               f"{s.lineno})", fi, s.ast)
         # arguments are the parameter
@@ -124,14 +128,14 @@ def run(ck):
               "raises ValueError iff `check` is given and returns a false value" if rc else
               "no `raise ValueError` guarded by (self._check is not None) and "
               "(not self._check(value))", fi, c.ast)
-        # the membership test must not be skipped for any other reason
-        ga = {g for g in cfg.guard_texts(a)}
-        gc = {g for g in cfg.guard_texts(c)} - ga
-        ck.ob(R1, f"{fi.fid} :: stages unconditional",
-              not [g for g in ga if 'self._allowed' not in g[0]] and
-              not [g for g in gc if 'self._check' not in g[0] and 'self._allowed' not in g[0]],
-              "the allowed and check stages are guarded only by their own `is not None` tests",
-              fi, a.ast)
+        # a stage must not be skipped (nor its failure ignored) for any other reason
+        extra_a = [t for t, p in (cfg.guard_texts(ra) if ra else ()) if '_allowed' not in t]
+        extra_c = [t for t, p in (cfg.guard_texts(rc) if rc else ())
+                   if '_allowed' not in t and '_check' not in t]
+        ck.ob(R1, f"{fi.fid} :: stages unconditional", not extra_a and not extra_c,
+              "the rejections of the allowed and check stages depend only on their own tests"
+              if not extra_a and not extra_c else
+              f"a stage's rejection additionally depends on {extra_a + extra_c}", fi, a.ast)
         # schema stage: guarded by is-not-None only, exceptions converted to ValueError
         gs = cfg.has_guard(s, 'self._schema is not None', True)
         bad_path = None
